@@ -294,10 +294,7 @@ Qed.
 Lemma K_agree T s r mvals :
   (forall ck, ck ∈ i_cols s -> col_key T r ck = col_key T mvals ck) -> K T s r = K T s mvals.
 Proof.
-  intros H. unfold K. destruct (i_cols s) as [|ck [|ck' cks]] eqn:Hc.
-  - reflexivity.
-  - f_equal. apply H. left.
-  - f_equal. apply omap_ext_in. exact H.
+  intros H. unfold K. apply list_fmap_ext. intros i ck Hck. apply H. eapply elem_of_list_lookup_2. exact Hck.
 Qed.
 
 (** every indexable condition of the subset stems from a condition of [cs] *)
